@@ -9,7 +9,8 @@ MODELS = ["WhitenCase"]
 RULE = ("xeofs.preprocessing.Whitener and PCA fitted directly on centred (sample, feature) matrices with n_samples > n_features and full column "
         "rank: real and complex x condition number of X in {1 .. 1e6} x alpha in {0, 1/4, 1/3, 1/2, 3/4, 9/10, 1} x data scale 1e-9 .. 1e6 x numpy / dask "
         "(feature dimension in one chunk); PCA n_modes integer / fractional / 'all' x solver full / auto; Coq correspondence of T, Tinv, transformed "
-        "data and pattern maps (whitening model) and of the basis and the four PCA maps; non-trivial: n > p >= 1 and a numeric comparison was made; "
+        "data and pattern maps (whitening model) and of the basis and the four PCA maps; in a third of the oracle cases the transformer object was fitted on "
+        "unrelated data of the same width and used in both directions before the fit under test; non-trivial: n > p >= 1 and a numeric comparison was made; "
         "distinct by input hash")
 PARTIAL = ["the real power lam^((alpha-1)/2) is an oracle: for rational alpha = a/b its defining relation d^(2b) lam^(b-a) = 1 is a premise of "
            "C16_whitened_cov_power_law and is re-checked in Coq on every case; uniqueness of the positive b-th root (so that d^2 lam IS lam^alpha) is not proved",
@@ -114,10 +115,29 @@ def decode(x):
 
 
 # ---------------------------------------------------------------- implementation drivers
-def run_whitener(X, alpha, dask, P, Y=None):
+def prior_use(t, X, dask, P, history):
+    """the transformer object was fitted on unrelated data of the same width and used in both directions before the fit under test"""
+    rngh = np.random.default_rng(history)
+    n0 = X.shape[0] + int(rngh.integers(0, 3))
+    X0 = rngh.normal(size=(n0, X.shape[1])) * (np.abs(X).max() or 1.0)
+    if np.iscomplexobj(X):
+        X0 = X0 + 1j * rngh.normal(size=X0.shape)
+    D0 = dataarray(X0, dask)
+    t.fit(D0)
+    for f in (lambda: t.inverse_transform_data(t.transform(D0)), lambda: t.inverse_transform_components(t.transform_components(patterns(P)))):
+        try:
+            f()
+        except Exception:
+            pass
+
+
+def run_whitener(X, alpha, dask, P, Y=None, history=0):
     from xeofs.preprocessing import Whitener
     D = dataarray(X, dask)
-    w = Whitener(alpha=alpha).fit(D)
+    w = Whitener(alpha=alpha)
+    if history:
+        prior_use(w, X, dask, P, history)
+    w = w.fit(D)
     Xw = w.transform(D)
     Xb = w.inverse_transform_data(Xw)
     Pd = patterns(P)
@@ -141,10 +161,13 @@ def run_whitener(X, alpha, dask, P, Y=None):
     return rec
 
 
-def run_pca(X, n_modes, solver, irr, dask, P, Qfun):
+def run_pca(X, n_modes, solver, irr, dask, P, Qfun, history=0):
     from xeofs.preprocessing import PCA
     D = dataarray(X, dask)
-    pca = PCA(n_modes=n_modes, solver=solver, init_rank_reduction=irr).fit(D)
+    pca = PCA(n_modes=n_modes, solver=solver, init_rank_reduction=irr)
+    if history:
+        prior_use(pca, X, dask, P, history)
+    pca = pca.fit(D)
     V = val(pca.V, "feature", "mode")
     k = V.shape[1]
     Q = Qfun(k)
@@ -170,7 +193,7 @@ def whitener_oracles(ctx, cfg, X, P, Y, rec):
     alpha, dask = cfg["alpha"], cfg["dask"]
     sfx = ":dask" if dask else ""
     n, p = X.shape
-    rp = dict(kind="whitener", X=X, P=P, Y=Y, alpha=alpha, dask=dask, cond=cfg.get("cond"), scale=cfg.get("scale"))
+    rp = dict(kind="whitener", X=X, P=P, Y=Y, alpha=alpha, dask=dask, cond=cfg.get("cond"), scale=cfg.get("scale"), history=cfg.get("history", 0))
     desc = "Whitener(alpha=%g) on %s %dx%d, cond(X)=%.0e, scale=%.0e%s" % (alpha, "complex" if np.iscomplexobj(X) else "real", n, p,
                                                                          cfg.get("cond", 0), cfg.get("scale", 1), " [dask]" if dask else "")
     Cm, lam, V = spectrum_of_cov(X)
@@ -253,7 +276,7 @@ def pca_oracles(ctx, cfg, X, P, rec):
     n, p = X.shape
     dask, nm, solver, irr = cfg["dask"], cfg["n_modes"], cfg["solver"], cfg["irr"]
     sfx = ":dask" if dask else ""
-    rp = dict(kind="pca", X=X, P=P, n_modes=nm, solver=solver, irr=irr, dask=dask, exact=cfg["exact"])
+    rp = dict(kind="pca", X=X, P=P, n_modes=nm, solver=solver, irr=irr, dask=dask, exact=cfg["exact"], history=cfg.get("history", 0))
     desc = "PCA(n_modes=%r, solver=%r, init_rank_reduction=%g) on %s %dx%d, cond(X)=%.0e%s" % (
         nm, solver, irr, "complex" if np.iscomplexobj(X) else "real", n, p, cfg.get("cond", 0), " [dask]" if dask else "")
     V, k = rec["V"], rec["k"]
@@ -327,10 +350,12 @@ def run_whitener_oracles(ctx, rng, N, ladder=True):
         m = int(rng.integers(1, 4))
         P = rnd(rng, p, m, cplx)
         Y = rnd(rng, int(rng.integers(1, 6)), p, cplx) * scale
-        cfg = dict(alpha=alpha, dask=dask, cond=cond, scale=scale)
-        tag = "whitener/%s/%s/alpha=%g/cond=%.0e/scale=%.0e" % ("complex" if cplx else "real", "dask" if dask else "numpy", alpha, cond, scale)
+        history = (7919 * i + 13) if i % 3 == 1 and i >= len(fixed) else 0
+        cfg = dict(alpha=alpha, dask=dask, cond=cond, scale=scale, history=history)
+        tag = "whitener/%s/%s/alpha=%g/cond=%.0e/scale=%.0e%s" % ("complex" if cplx else "real", "dask" if dask else "numpy", alpha, cond, scale,
+                                                                  "/refit" if history else "")
         try:
-            rec = run_whitener(X, alpha, dask, P, Y)
+            rec = run_whitener(X, alpha, dask, P, Y, history)
         except Exception as e:
             ctx.case(("c16w", i, n, p, cplx, dask, alpha, cond, scale), nontrivial=True, tag=tag)
             whitener_error(ctx, e, X, P, Y, alpha, dask, cond, scale)
@@ -373,10 +398,12 @@ def run_pca_oracles(ctx, rng, N):
         P = rnd(rng, p, m, cplx)
         seeds = rng.integers(0, 2 ** 31 - 1)
         Qfun = (lambda k, s=seeds, m=m, c=cplx: rnd(np.random.default_rng(int(s)), k, m, c))
-        cfg = dict(n_modes=nm, solver=solver, irr=irr, dask=dask, cond=cond, exact=exact)
-        tag = "pca/%s/%s/%s/%s/%s" % ("complex" if cplx else "real", "dask" if dask else "numpy", type(nm).__name__, solver, "exact" if exact else "randomised")
+        history = (7919 * i + 13) if i % 3 == 1 else 0
+        cfg = dict(n_modes=nm, solver=solver, irr=irr, dask=dask, cond=cond, exact=exact, history=history)
+        tag = "pca/%s/%s/%s/%s/%s%s" % ("complex" if cplx else "real", "dask" if dask else "numpy", type(nm).__name__, solver,
+                                        "exact" if exact else "randomised", "/refit" if history else "")
         try:
-            rec = run_pca(X, nm, solver, irr, dask, P, Qfun)
+            rec = run_pca(X, nm, solver, irr, dask, P, Qfun, history)
         except Exception as e:
             ctx.case(("c16p", i, n, p, cplx, dask, str(nm), solver), nontrivial=True, tag=tag)
             ctx.violation("C16:error:PCA:%s%s" % (C.errkind(e), ":dask" if dask else ""), "PCA(n_modes=%r, solver=%r) on %s %dx%d%s raised %r"
@@ -557,20 +584,20 @@ def replay(ctx, rp):
     if r["kind"] == "whitener":
         Y = decode(r["Y"]) if r.get("Y") is not None else None
         try:
-            rec = run_whitener(X, r["alpha"], r["dask"], P, Y)
+            rec = run_whitener(X, r["alpha"], r["dask"], P, Y, r.get("history", 0))
         except Exception as e:
             whitener_error(ctx, e, X, P, Y, r["alpha"], r["dask"], r.get("cond") or 0, r.get("scale") or 1)
             for v in ctx.violations:
                 print("  still violated:", v["key"], "--", v["what"][:300])
             return
-        whitener_oracles(ctx, dict(alpha=r["alpha"], dask=r["dask"], cond=r.get("cond") or 0, scale=r.get("scale") or 1), X, P, Y, rec)
+        whitener_oracles(ctx, dict(alpha=r["alpha"], dask=r["dask"], cond=r.get("cond") or 0, scale=r.get("scale") or 1, history=r.get("history", 0)), X, P, Y, rec)
     else:
         m = P.shape[1]
         try:
-            rec = run_pca(X, r["n_modes"], r["solver"], r["irr"], r["dask"], P, lambda k: rnd(np.random.default_rng(0), k, m, np.iscomplexobj(X)))
+            rec = run_pca(X, r["n_modes"], r["solver"], r["irr"], r["dask"], P, lambda k: rnd(np.random.default_rng(0), k, m, np.iscomplexobj(X)), r.get("history", 0))
         except Exception as e:
             ctx.violation(rp["key"], "PCA raised %r" % (e,), r)
             return
-        pca_oracles(ctx, dict(n_modes=r["n_modes"], solver=r["solver"], irr=r["irr"], dask=r["dask"], exact=r.get("exact", True), cond=0), X, P, rec)
+        pca_oracles(ctx, dict(n_modes=r["n_modes"], solver=r["solver"], irr=r["irr"], dask=r["dask"], exact=r.get("exact", True), cond=0, history=r.get("history", 0)), X, P, rec)
     for v in ctx.violations:
         print("  still violated:", v["key"], "--", v["what"][:300])
